@@ -30,7 +30,7 @@ var pureFramePkgs = map[string]bool{
 var pureFrameFuncs = map[string]bool{
 	"os.Remove": true, "os.RemoveAll": true, "os.Stat": true, "os.MkdirAll": true, "os.Mkdir": true, "os.Rename": true,
 	"os.OpenFile": true, "os.Open": true, "os.Create": true, "os.ReadFile": true, "os.WriteFile": true, "os.ReadDir": true, "os.IsNotExist": true, "os.IsExist": true,
-	"(*os.File).Close": true, "(*os.File).Write": true, "(*os.File).WriteString": true, "(*os.File).Sync": true, "(*os.File).Seek": true, "(*os.File).Stat": true, "(*os.File).Name": true, "(*os.File).Truncate": true,
+	"(*os.File).Close": true, "(*os.File).Write": true, "(*os.File).WriteString": true, "(*os.File).Sync": true, "(*os.File).Seek": true, "(*os.File).Stat": true, "(*os.File).Name": true, "(*os.File).Truncate": true, "(*os.File).Fd": true, "syscall.Flock": true,
 	"(*sync.Mutex).Lock": true, "(*sync.Mutex).Unlock": true, "(*sync.RWMutex).Lock": true, "(*sync.RWMutex).Unlock": true,
 	"(*sync.RWMutex).RLock": true, "(*sync.RWMutex).RUnlock": true, "(*sync.Mutex).TryLock": true,
 	"(*sync.WaitGroup).Add": true, "(*sync.WaitGroup).Done": true, "(*sync.WaitGroup).Wait": true,
@@ -843,6 +843,23 @@ func (t *FnTrans) contractCall(x *ssa.Call, callee *ssa.Function, con *Contract,
 			keep, ok := t.modifiesComps(callee, &Contract{Modifies: con.Preserves})
 			// touch the preserved components in the pre-state so that they exist
 			for _, it := range con.Preserves {
+				if strings.HasPrefix(it, "fieldsof(") && strings.HasSuffix(it, ")") {
+					// contract clauses are evaluated lazily: a field component that
+					// only they mention does not exist yet; create it in the pre-state
+					var pkg *types.Package
+					if callee.Pkg != nil {
+						pkg = callee.Pkg.Pkg
+					}
+					if sty := t.W.structTypeByName(pkg, strings.TrimSpace(it[len("fieldsof("):len(it)-1])); sty != nil {
+						su := sty.Underlying().(*types.Struct)
+						for i := 0; i < su.NumFields(); i++ {
+							for _, cd := range t.flatComps(su.Field(i).Type()) {
+								t.heapGet(st, "F."+typeKey(sty)+"."+su.Field(i).Name()+cd.suffix, arraySort("Int", cd.sort))
+							}
+						}
+					}
+					continue
+				}
 				func() {
 					defer func() { _ = recover() }()
 					inner := it
@@ -961,6 +978,42 @@ func (w *World) structTypeByName(pkg *types.Package, name string) types.Type {
 	return tn.Type()
 }
 
+// typeByText resolves a type written in a modifies item: a predeclared or
+// named type (optionally package-qualified), with any prefix of * and [].
+func (w *World) typeByText(pkg *types.Package, text string) types.Type {
+	text = strings.TrimSpace(text)
+	if strings.HasPrefix(text, "*") {
+		if el := w.typeByText(pkg, text[1:]); el != nil {
+			return types.NewPointer(el)
+		}
+		return nil
+	}
+	if strings.HasPrefix(text, "[]") {
+		if el := w.typeByText(pkg, text[2:]); el != nil {
+			return types.NewSlice(el)
+		}
+		return nil
+	}
+	if tn, ok := types.Universe.Lookup(text).(*types.TypeName); ok {
+		return tn.Type()
+	}
+	if pkg == nil {
+		return nil
+	}
+	scope, name := pkg.Scope(), text
+	if i := strings.Index(name, "."); i >= 0 {
+		p := w.importedPkg(pkg, name[:i])
+		if p == nil {
+			return nil
+		}
+		scope, name = p.Scope(), name[i+1:]
+	}
+	if tn, ok := scope.Lookup(name).(*types.TypeName); ok {
+		return tn.Type()
+	}
+	return nil
+}
+
 // ghostWrites: names of the ghost components a contracted function may set:
 // its own ghostinit / site ghostsets / modifies ghost items and, transitively,
 // those of the contracted functions it calls statically.
@@ -1056,6 +1109,28 @@ func (t *FnTrans) havocModifies(item string, pre *Env, st *HeapState, reach stri
 		}
 		t.epochs++
 		st.pendingPrefix[prefix] = t.epochs
+		return
+	}
+	if strings.HasPrefix(item, "elemsof(") && strings.HasSuffix(item, ")") {
+		// every element of every slice/array with this element type may change
+		el := t.W.typeByText(pre.pkg, strings.TrimSpace(item[len("elemsof("):len(item)-1]))
+		cds := []compDesc(nil)
+		if el != nil {
+			cds = t.flatComps(el)
+		}
+		if cds == nil {
+			t.note("modifies item %q: unknown or unsupported element type: whole heap havocked", item)
+			t.replaceState(st, t.havocAll(st))
+			return
+		}
+		for _, cd := range cds {
+			comp := "B." + t.sortKey(el) + cd.suffix
+			srt := arraySort("Int", arraySort(t.mode.idxSort(), cd.sort))
+			t.heapGet(st, comp, srt)
+			delete(st.cur, comp)
+			t.epochs++
+			st.pending[comp] = t.epochs
+		}
 		return
 	}
 	if item == "allbytes" {
